@@ -36,6 +36,12 @@ CHECKS = {
   text="string, concat, starts-with, contains, substring-before/after, substring, string-length, normalize-space, translate, boolean, not, true, false, number, floor, ceiling, round, the operators + - * div mod and unary minus, and = != < <= > >= on scalar operands are executed symbolically from source: strings of exactly n <= 2 (quick) / 3 (thorough) scalar values, EVERY f64 and both booleans. On every path z3 decides equality with the XPath 1.0 result (sections 3.4, 3.5, 4.2-4.4: character counting, substring position rule incl. NaN/infinities, XML white space, round ties toward +inf and -0, IEEE arithmetic with signed zero, coercion rules, number() lexical form) and that no path panics. The function table's arity ranges are compared with section 4.",
   note="Outside: node-set operands, id(), lang(), name functions. Trusted: digits printed for finite non-zero numbers (Rust Display, never an exponent) and the value Rust's dec2flt assigns to an accepted numeral (integers of <= 9 digits are modelled exactly); `mod` is the same uninterpreted fmod on both sides; substring is decided with model::round abstracted, round itself by its own obligation. Known finding neg-zero-to-string is excluded from the inputs and re-witnessed each run.",
   design="4/C09", engine="S-kernel"),
+ "C15": dict(
+  technique="source-level symbolic execution (S-kernel) of the DOM character-data mutators and name factories, with the validate-by-reparse checks executed through the S-grammar encoding of the real nom productions + SMT (z3); one inductive step from an arbitrary state of the capture-language invariant; counterexamples replayed through the DOM API with print + re-parse",
+  category="model_checking",
+  text="Invariant: a text / comment / CDATA node's data is in the capture language Cap(P) of the production that prints and parses it. From ANY state satisfying it (content of exactly n <= 3/4 scalar values) one insert_data / append_data / replace_data / delete_data / set_data call with any 64-bit offset/count and a symbolic argument (<= 2/3 characters) either fails or re-establishes the invariant (so histories of any length are covered for this invariant within the size bounds). Plus: two adjacent text nodes concatenate inside Cap(text); XmlElement/XmlAttribute/XmlProcessingInstruction::empty accept only a name that is stored as given; the text/comment/CDATA factories do not panic on refusable data.",
+  note="Outside: attribute-value piece editing, PI data, element/attribute names set after creation. adjacent-text and factory-unwrap are listed known findings (re-witnessed and replayed each run). Trusted: std models, item construction stubs in the name factories.",
+  design="3/C15", engine="S-kernel + S-grammar"),
  "C16": dict(
   technique="source-level symbolic execution (S-kernel: path-by-path interpreter over the syn dump with modelled std) of the real dom/info character-data functions + SMT (z3 BV64) per path; both overflow configurations; counterexamples replayed on debug and release builds",
   category="model_checking",
@@ -61,7 +67,7 @@ m = {
            "baseline_off_cmd": "cd /repo && cargo test --workspace --no-fail-fast --offline", "source_commits": [], "add_only": True},
  "engines": [
   {"name": "S-grammar", "path": "engine/sx/nomsem.py", "serves_properties": ["C01", "C02", "C03", "C06", "C18"], "kind_free_text": "symbolic executor for the nom grammars read from /repo via engine/srcdump (syn); z3 QF_BV"},
-  {"name": "S-kernel", "path": "engine/sx/kernel.py", "serves_properties": ["C09", "C16"], "kind_free_text": "path-enumerating symbolic interpreter for small Rust functions read from the syn dump (engine/sx/kstd.py = std models); z3"},
+  {"name": "S-kernel", "path": "engine/sx/kernel.py", "serves_properties": ["C09", "C15", "C16"], "kind_free_text": "path-enumerating symbolic interpreter for small Rust functions read from the syn dump (engine/sx/kstd.py = std models); z3"},
   {"name": "Kani", "path": "kani/", "serves_properties": ["C18"], "kind_free_text": "Kani 0.68 / CBMC 6.11 harness crate with path dependencies on /repo crates"},
   {"name": "replay", "path": "replay/", "serves_properties": ["C01", "C02"], "kind_free_text": "Rust driver with path dependencies on /repo crates: replays solver models and validates the translator"},
  ],
